@@ -566,9 +566,26 @@ def _short(x):
     return s if len(s) < 160 else s[:157] + "..."
 
 
+_WARM = False
+
+
+def warm_up(world_label: str) -> None:
+    """CPython 3.12 installs opcode-event instrumentation per code object lazily: the very first opcode-traced execution
+    of a function in a process sees fewer events than later ones.  Execute every operation once under opcode tracing at
+    process start so that all runs - whatever their order and worker - see the same event stream."""
+    global _WARM
+    if _WARM:
+        return
+    names = sorted(ops())
+    for _ in range(2):
+        execute(world_label, names, {"kind": "sequential", "opcode": True})
+    _WARM = True
+
+
 def run(rng: Rng, tier: str, index: int) -> RunResult:
     res = RunResult()
     tr = Trace()
+    warm_up(rng.label.split(":")[0] + "/C20-material")
     strategy = STRATEGIES[index % len(STRATEGIES)]
     # key material is constant per VERIF_SEED (isolation baselines and prepared inputs are computed once per process);
     # the joserfc objects over it are rebuilt fresh for every run
@@ -613,6 +630,7 @@ def run(rng: Rng, tier: str, index: int) -> RunResult:
 
 
 def replay(repro: dict):
+    warm_up(repro["world"])
     spec = {"kind": "forced", "first": repro["first"], "decisions": repro["decisions"], "opcode": repro.get("opcode", False)}
     w, out = execute(repro["world"], repro["ops"], spec)
     return judge(repro["world"], repro["ops"], w, out)
